@@ -149,6 +149,7 @@ func registerFSModels(e *Engine) {
 		return tuple{out, iface{}}
 	}
 	e.models["io/ioutil.ReadDir"] = readDir
+	e.models["os.Chmod"] = func(fr *frame, fn *ssa.Function, args []value) value { return iface{} }
 	e.models["os.Setenv"] = func(fr *frame, fn *ssa.Function, args []value) value {
 		fr.p.sideTable["env:"+fr.concreteString(args[0])] = fr.concreteString(args[1])
 		return iface{}
